@@ -70,14 +70,25 @@ Example federated_two_step_list_applies : forall f1 f2, (50 <= f1)%nat -> (60 <=
 Proof.
   intros f1 f2 Hf1 Hf2.
   destruct ex_list_wf_bools as (B1 & B2 & B3 & B4 & B5 & B6).
-  destruct (federated_two_step_list_wf_main UL SL0 [] [] SL1 S2 [] [] e_rootL bQuery e_rootL None bproducts [] [] []
+  assert (H : fst (two_step_list UL SL1 [] [] S2 [] [] [] bQuery e_rootL None bproducts [] [] [] false false bProduct [bid]
+                                 [fld bname []] [fld bprice []] [fld bname []] f1 f2) =
+              fst (mono_hop UL SL0 [] [] bQuery e_rootL None bproducts [] [] [] [fld bname []] [fld bprice []] 16) /\
+              (snd (two_step_list UL SL1 [] [] S2 [] [] [] bQuery e_rootL None bproducts [] [] [] false false bProduct [bid]
+                                  [fld bname []] [fld bprice []] [fld bname []] f1 f2) = [] <->
+               snd (mono_hop UL SL0 [] [] bQuery e_rootL None bproducts [] [] [] [fld bname []] [fld bprice []] 16) = [])).
+  { apply (federated_two_step_list_wf_main UL SL0 [] [] SL1 S2 [] [] e_rootL bQuery e_rootL None bproducts [] [] []
               false false bProduct
               (objt bQuery [fdef bproducts (TList (TNamed bProduct))]) (fdef bproducts (TList (TNamed bProduct)))
-              items0 bProduct [bid] [fld bname []] [fld bprice []] [fld bname []] [fld bprice []] 5 6 6) with (fM := 16%nat) (f1 := f1) (f2 := f2)
-    as [Hd _]; try assumption; try (vm_compute; reflexivity); try (vm_compute; lia).
-  - left. reflexivity.
-  - intros rs m Hm. unfold vars2l_of, effective_vars. cbn. unfold not_repr in Hm. apply negb_true_iff in Hm. rewrite Hm. reflexivity.
-  - intros it e Hin He _. cbn in Hin.
-    destruct Hin as [<-|[<-|[<-|[<-|[]]]]]; vm_compute in He; try discriminate; injection He as <-; repeat split; vm_compute; reflexivity.
-  - rewrite Hd. vm_compute. reflexivity.
+              items0 bProduct [bid] [fld bname []] [fld bprice []] [fld bname []] [fld bprice []] 5 6 6);
+      try assumption;
+      match goal with
+      | |- forall _, _ => idtac
+      | |- (_ <= _)%nat => vm_compute; lia
+      | |- In _ _ => left; reflexivity
+      | _ => vm_compute; reflexivity
+      end.
+    - intros rs m Hm. unfold vars2l_of, effective_vars. cbn. unfold not_repr in Hm. apply negb_true_iff in Hm. rewrite Hm. reflexivity.
+    - intros it e Hin He _. cbn in Hin.
+      destruct Hin as [<-|[<-|[<-|[<-|[]]]]]; vm_compute in He; try discriminate; injection He as <-; repeat split; vm_compute; reflexivity. }
+  destruct H as [Hd _]. rewrite Hd. vm_compute. reflexivity.
 Qed.
